@@ -4,7 +4,7 @@ from pyvc.api import *
 from pyvc.spec import callee_of
 
 SPEC_IMPORTS = ['contracts.common']
-SPEC_FUNCTIONS = ['path_join_parts', 'resolve_name_spec']
+SPEC_FUNCTIONS = ['path_join_parts', 'resolve_name_spec', 'gcd_import_spec']
 
 
 def path_join_parts(p, parts):
@@ -17,6 +17,31 @@ def path_join_parts(p, parts):
 def resolve_name_spec(base, level, name):
     """importlib._bootstrap._resolve_name on name sequences: package.rsplit('.', level-1)[0] + '.' + name"""
     return base[:len(base) - level + 1] + name
+
+
+def gcd_import_spec(inference_state, import_names, parent_module_value, sys_path):
+    """importlib._bootstrap._gcd_import / _find_and_load for ONE dotted name whose parent is already imported:
+    top-level names are looked up globally (sys.path), sub-modules only on the parent's __path__ (no __path__: the
+    parent is not a package, ModuleNotFoundError); what is loaded is what the finder reports"""
+    if parent_module_value is None:
+        found = inference_state.compiled_subprocess.get_module_info(
+            string=import_names[-1], full_name='.'.join(import_names), sys_path=sys_path, is_global_search=True)
+    else:
+        paths = parent_module_value.py__path__()
+        if paths is None:
+            return NO_VALUES
+        found = inference_state.compiled_subprocess.get_module_info(
+            string=import_names[-1], full_name='.'.join(import_names), path=paths, is_global_search=False)
+    if found[1] is None:
+        return NO_VALUES
+    if isinstance(found[0], ImplicitNSInfo):
+        return ValueSet([ImplicitNamespaceValue(inference_state, tuple(found[0].name.split('.')), found[0].paths)])
+    if found[0] is None:
+        module = _load_builtin_module(inference_state, import_names, sys_path)
+        if module is None:
+            return NO_VALUES
+        return ValueSet([module])
+    return ValueSet([_load_python_module(inference_state, found[0], import_names, found[1])])
 
 
 def _replay_iter(inp):
@@ -86,13 +111,197 @@ _importer_init = Contract(
     notes='heuristic branch (level > len(package)): Python raises ImportError there; only _infer_possible is specified',
 )
 
+
+def _replay_prepare(inp):
+    """`from . import x` / `from pk import x` in a package: the imported name must be looked up as an attribute of the
+    from-part first (Python's IMPORT_FROM), so _prepare_infer_import has to split it off"""
+    from pyvc.replay import run_real
+    import parso
+    from jedi.inference import imports as imp
+    code = inp.get('code', 'from . import x\n')
+    module = parso.parse(code)
+    name = module.get_last_leaf().get_previous_leaf()
+    while name.type != 'name':
+        name = name.get_previous_leaf()
+    seen = {}
+
+    class _Imp:
+        def __init__(self, inference_state, import_path, module_context, level=0):
+            seen['import_path'] = tuple(getattr(n, 'value', n) for n in import_path)
+            seen['level'] = level
+
+        def follow(self):
+            return 'FOLLOWED'
+
+    class _Ctx:
+        inference_state = None
+    real = imp.Importer
+    imp.Importer = _Imp
+    try:
+        out = run_real(lambda: imp._prepare_infer_import(_Ctx(), name))
+    finally:
+        imp.Importer = real
+    if out['kind'] == 'return':
+        fin, ipath, level, values = out['value']
+        out['value'] = (getattr(fin, 'value', fin), tuple(getattr(n, 'value', n) for n in ipath), level, values)
+    node = name.search_ancestor('import_name', 'import_from')
+    env = {'PATH': [n.value for n in node.get_path_for_name(name)],
+           'FROM': [n.value for n in node.get_from_names()] if node.type == 'import_from' else None,
+           'IS_FROM': node.type == 'import_from', 'LEVEL': node.level, 'SEEN': seen}
+    return env, out
+
+
+_prepare = Contract(
+    id='C10._prepare_infer_import', prop='C10',
+    clause='from-import prefers an attribute of the package, then a sub-module: for `from <pkg> import <name>` (any '
+           'level, also with an empty from-part as in `from . import x`) the imported name is split off and only the '
+           'from-part is imported; every other name of an import statement is imported by its full dotted path; the '
+           'values are those of the importer for exactly that path and level',
+    file='jedi/inference/imports.py', qualname='_prepare_infer_import',
+    params={'module_context': Obj('ModCtx'), 'tree_name': Obj('PNode')},
+    families=['ModCtx', 'PNode', 'ImportNode', 'ImporterV', 'InfState10'],
+    ret=Tup(Opt(ANY), Seq(ANY), INT, ANY),
+    ensures=[
+        'implies(tree_name.search_ancestor("import_name", "import_from").type == "import_from" and '
+        'len(tree_name.search_ancestor("import_name", "import_from").get_from_names()) + 1 == len(tree_name.search_ancestor("import_name", "import_from").get_path_for_name(tree_name)), '
+        'result[0] is not None and result[0] == tree_name.search_ancestor("import_name", "import_from").get_path_for_name(tree_name)[-1] '
+        'and result[1] == tree_name.search_ancestor("import_name", "import_from").get_from_names())',
+        'implies(not (tree_name.search_ancestor("import_name", "import_from").type == "import_from" and '
+        'len(tree_name.search_ancestor("import_name", "import_from").get_from_names()) + 1 == len(tree_name.search_ancestor("import_name", "import_from").get_path_for_name(tree_name))), '
+        'result[0] is None and result[1] == tree_name.search_ancestor("import_name", "import_from").get_path_for_name(tree_name))',
+        'result[2] == tree_name.search_ancestor("import_name", "import_from").level',
+        'result[3] == Importer(module_context.inference_state, result[1], module_context, result[2]).follow()',
+    ],
+    concrete_ensures=[
+        'implies(IS_FROM and len(FROM) + 1 == len(PATH), result[0] == PATH[-1] and list(result[1]) == FROM)',
+        'implies(not (IS_FROM and len(FROM) + 1 == len(PATH)), result[0] is None and list(result[1]) == PATH)',
+        'result[2] == LEVEL and SEEN["level"] == LEVEL and SEEN["import_path"] == result[1]',
+        'result[3] == "FOLLOWED"',
+    ],
+    witness={}, replay=_replay_prepare, concrete_only=True,
+    witness_library=[{'code': 'from . import x\n'}, {'code': 'from .. import x\n'}, {'code': 'from pk import x\n'},
+                     {'code': 'from pk.sub import x as y\n'}, {'code': 'import pk.sub\n'},
+                     {'code': 'from .pk import (a, x)\n'}],
+    notes='parso import nodes are abstract (get_path_for_name / get_from_names / level assumed pure; get_from_names '
+          'exists on import_from only); Importer(...).follow() is an abstract function of (state, path, context, level)',
+)
+
+def _replay_import_module(inp):
+    """the real import_module (decorators removed: stub layering and plugins are outside the property) with a recording
+    finder and recording loaders; `inp` programs the finder's answer"""
+    from pyvc.replay import run_real, raw_function
+    from jedi.inference import imports as imp
+    from jedi.inference.compiled.subprocess.functions import ImplicitNSInfo
+    calls = []
+
+    class _FileIO:
+        path = '/x/found.py'
+
+    answer = {'file': (_FileIO(), False), 'package': (_FileIO(), True), 'missing': (None, None),
+              'builtin': (None, False), 'namespace': (ImplicitNSInfo('a.ns', ['/p1/a/ns', '/p2/a/ns']), False)}[inp['answer']]
+
+    class _Sub:
+        def get_module_info(self, **kw):
+            calls.append(kw)
+            return answer
+
+    class _IS:
+        compiled_subprocess = _Sub()
+
+    class _Parent:
+        def py__path__(self):
+            return inp.get('parent_paths')
+
+    fakes = {
+        '_load_python_module': lambda inference_state, file_io, import_names=None, is_package=False:
+            ('python', file_io, tuple(import_names), is_package),
+        '_load_builtin_module': lambda inference_state, import_names, sys_path:
+            None if inp.get('builtin_fails') else ('builtin', tuple(import_names), sys_path),
+        'ValueSet': lambda it: ('set', list(it)),
+        'NO_VALUES': ('set', []),
+    }
+    import jedi.inference.value.namespace as nsmod
+    real_ns = nsmod.ImplicitNamespaceValue
+    nsmod.ImplicitNamespaceValue = lambda inference_state, string_names, paths: ('namespace', tuple(string_names), list(paths))
+    try:
+        fn = raw_function(imp, 'import_module', fakes)
+        names = tuple(inp['names'])
+        parent = _Parent() if inp.get('parent') else None
+        sp = inp.get('sys_path', ['/sp1', '/sp2'])
+        out = run_real(lambda: fn(_IS(), names, parent, sp))
+    finally:
+        nsmod.ImplicitNamespaceValue = real_ns
+    exp_call = None
+    if parent is None:
+        exp_call = {'string': names[-1], 'full_name': '.'.join(names), 'sys_path': sp, 'is_global_search': True}
+    elif inp.get('parent_paths') is not None:
+        exp_call = {'string': names[-1], 'full_name': '.'.join(names), 'path': inp['parent_paths'],
+                    'is_global_search': False}
+    if exp_call is None or inp['answer'] == 'missing':
+        exp = ('set', [])
+    elif inp['answer'] == 'namespace':
+        exp = ('set', [('namespace', ('a', 'ns'), ['/p1/a/ns', '/p2/a/ns'])])
+    elif inp['answer'] == 'builtin':
+        exp = ('set', []) if inp.get('builtin_fails') else ('set', [('builtin', names, sp)])
+    else:
+        exp = ('set', [('python', answer[0], names, answer[1])])
+    norm = [{k: v for k, v in c.items() if not (k in ('sys_path', 'path') and v is None)} for c in calls]
+    return {'CALLS': norm, 'EXPECTED_CALLS': [] if exp_call is None else [exp_call], 'EXPECTED': exp}, out
+
+
+_IM_LIB = [dict(names=n, parent=p, parent_paths=pp, answer=a, builtin_fails=b)
+           for (n, p, pp) in ((['top'], False, None), (['a', 'b'], True, ['/p/a']), (['a', 'b'], True, None),
+                              (['a', 'b', 'c'], True, ['/p/a/b', '/q/a/b']))
+           for a in ('file', 'package', 'missing', 'builtin', 'namespace')
+           for b in ((False, True) if a == 'builtin' else (False,))]
+
+_IS10 = Obj('IS10')
+
+_import_module10 = Contract(
+    id='C10.import_module', prop='C10',
+    clause='module discovery is delegated to the finders of the target interpreter with the arguments of Python\'s '
+           '_gcd_import: a top-level name is searched globally on the given sys.path by its last component and full '
+           'dotted name; a sub-module is searched on __path__ of its (already imported) parent only, and not at all when '
+           'the parent is not a package; the kind of module that is loaded follows the finder\'s answer (namespace '
+           'portions as reported, no file => compiled module, else the python file with the reported package flag)',
+    file='jedi/inference/imports.py', qualname='import_module',
+    params={'inference_state': _IS10, 'import_names': Seq(STR), 'parent_module_value': Opt(Obj('ModVal10')),
+            'sys_path': Opt(Seq(STR))},
+    families=['IS10', 'Sub10', 'ModVal10', 'Info10'], ret=ANY,
+    requires=['len(import_names) >= 1', 'not (import_names[0] in settings.auto_import_modules)'],
+    ensures=['result == gcd_import_spec(inference_state, import_names, parent_module_value, sys_path)'],
+    concrete_ensures=['CALLS == EXPECTED_CALLS', 'result == EXPECTED'],
+    witness={}, replay=_replay_import_module, concrete_only=True, witness_library=_IM_LIB,
+    notes='auto_import_modules (a jedi setting outside the property) excluded by precondition; loaders and value '
+          'constructors are abstract pure functions of their arguments',
+)
+
 FAMILIES = [
     Family('Importer', fields={'_inference_state': Obj('InfState10'), 'level': INT, '_module_context': Obj('ModCtx'),
                                '_fixed_sys_path': Opt(Seq(STR)), '_infer_possible': BOOL,
                                'import_path': Seq(ANY)}),
     Family('InfState10', attrs={'project': Obj('Project10')}),
+    Family('IS10', attrs={'compiled_subprocess': Obj('Sub10')}),
+    Family('Sub10', methods={'get_module_info': FnSpec(
+        'compiled_subprocess.get_module_info',
+        params=[('string', STR), ('full_name', STR), ('sys_path', Opt(Seq(STR))), ('is_global_search', BOOL),
+                ('path', Opt(Seq(STR)))],
+        defaults={'sys_path': None, 'path': None}, ret=Tup(Opt(Obj('Info10')), Opt(BOOL)), pure=True, assumed=True,
+        note='importlib finders of the target interpreter (the oracle of the property)')}),
+    Family('ModVal10', methods={'py__path__': FnSpec('ModuleValue.py__path__', ret=Opt(Seq(STR)), pure=True)}),
+    Family('Info10', attrs={'name': STR, 'paths': ANY}),
+    Family('ImportNode', attrs={'type': STR, 'level': INT}, axioms=['o.level >= 0'], methods={
+        'get_path_for_name': FnSpec('ImportNode.get_path_for_name', params=[('name', Obj('PNode'))], ret=Seq(ANY),
+                                    pure=True, note='parso: the dotted path that leads to the given name'),
+        'get_from_names': FnSpec('ImportNode.get_from_names', ret=Seq(ANY), pure=True,
+                                 raises=[('AttributeError', 'self.type != "import_from"')],
+                                 ensures=['self.type == "import_from"'],
+                                 note='parso: only ImportFrom has get_from_names'),
+    }),
+    Family('ImporterV', methods={'follow': FnSpec('Importer.follow', ret=ANY, pure=True, assumed=True,
+                                                  note='the values the importer finds: a function of its arguments')}),
     Family('Project10', attrs={'path': PATH}),
-    Family('ModCtx', methods={
+    Family('ModCtx', attrs={'inference_state': Obj('InfState10')}, methods={
         'get_value': FnSpec('ModCtx.get_value', ret=Obj('ModVal'), pure=True),
         'py__file__': FnSpec('ModCtx.py__file__', ret=Opt(PATH), pure=True),
     }),
@@ -102,7 +311,7 @@ FAMILIES = [
     }),
 ]
 
-CONTRACTS = [_iter_solutions, _importer_init]
+CONTRACTS = [_iter_solutions, _importer_init, _prepare, _import_module10]
 
 
 def register(reg):
@@ -118,6 +327,31 @@ def register(reg):
     reg.names['_add_error'] = FnSpec('_add_error', params=[('ctx', Obj('ModCtx')), ('name', ANY), ('message', STR)],
                                      ret=None, assumed=True, note='analysis diagnostics, no effect on resolution')
     reg.names['dirname_or'] = FnSpec('dirname_or', impl=_dirname_or)
+    from pyvc.values import MCls
+    import pyvc.types as T
+    reg.names['_load_builtin_module'] = FnSpec(
+        '_load_builtin_module', params=[('inference_state', _IS10), ('import_names', Seq(STR)),
+                                        ('sys_path', Opt(Seq(STR)))], ret=Opt(ANY), pure=True, assumed=False,
+        note='C12._load_builtin_module')
+    reg.names['_load_python_module'] = FnSpec(
+        '_load_python_module', params=[('inference_state', _IS10), ('file_io', Obj('Info10')), ('import_names', Seq(STR)),
+                                       ('is_package', Opt(BOOL))], defaults={'import_names': None, 'is_package': False},
+        ret=ANY, pure=True, assumed=False, note='parse of the file found (C09/C12)')
+    reg.names['NO_VALUES'] = SV(ANY, z3.Const('NO_VALUES', T.AnySort))
+    reg.names['ValueSet'] = FnSpec('ValueSet', params=[('values', Seq(ANY))], ret=ANY, assumed=True, pure=True)
+    reg.names['ImplicitNSInfo'] = MCls('ImplicitNSInfo')
+    reg.names['ImplicitNamespaceValue'] = FnSpec(
+        'ImplicitNamespaceValue', params=[('inference_state', _IS10), ('string_names', Seq(STR)), ('paths', ANY)],
+        ret=ANY, assumed=True, pure=True)
+    reg.names['settings'].members['auto_import_modules'] = SV(
+        Seq(STR), z3.Const('settings.auto_import_modules', T.sort_of(Seq(STR))))
+    reg.families['PNode'].methods['search_ancestor'] = FnSpec(
+        'PNode.search_ancestor', params=[('a', STR), ('b', STR)], ret=Obj('ImportNode'), pure=True, assumed=True,
+        note='nearest import statement above a name that is part of one (call sites only pass such names)')
+    reg.names['Importer'] = FnSpec('Importer', params=[('inference_state', Obj('InfState10')), ('import_path', Seq(ANY)),
+                                                       ('module_context', Obj('ModCtx')), ('level', INT)],
+                                   ret=Obj('ImporterV'), pure=True, assumed=False, requires=['level >= 0'],
+                                   note='C10.Importer.__init__ is under contract')
 
 
 def _dirname_or(V, st, self_val, args, kwargs, node):
